@@ -91,6 +91,10 @@ func genC12(seed uint64, run int, tier string) Scenario {
 				}
 			case "grants":
 				par.Cmds[ps.Escalate] = &peer.Reply{Next: ps.Name}
+				if r.IntN(2) == 0 {
+					// ... and a console message lands right behind the new prompt
+					par.Cmds[ps.Escalate].After = []peer.Tok{{S: g.nl + "*Mar  1 00:00:07.123: %SYS-5-PRIV_AUTH_PASS: Privilege level set by console" + g.nl}}
+				}
 				sc.Ex = append(sc.Ex, "grants:"+ps.Name)
 			case "refuses":
 				par.Cmds[ps.Escalate] = &peer.Reply{Out: []peer.Tok{{S: "% Access denied"}}}
